@@ -38,6 +38,10 @@ class Blobs:
                     return f.read()
             except (FileNotFoundError, IsADirectoryError, NotADirectoryError):
                 return None
+            except OSError as e:
+                if e.errno == 36:       # ENAMETOOLONG: no such file can exist
+                    return None
+                raise
 
         def listing() -> List[str]:
             out = []
